@@ -1712,6 +1712,137 @@ end Goml.Lift.Consts
 
 EXTRACTORS += [c08_gen_lift_consts]
 
+def c08_split_top(text, sep):
+    """split at `sep` outside (), {}, []"""
+    out, depth, cur = [], 0, []
+    for ch in text:
+        if ch in "({[":
+            depth += 1
+        elif ch in ")}]":
+            depth -= 1
+        if ch == sep and depth == 0:
+            out.append("".join(cur)); cur = []
+        else:
+            cur.append(ch)
+    out.append("".join(cur))
+    return [x.strip() for x in out if x.strip()]
+
+def c08_gen_capture_walk():
+    """C08: the case list of lift.rs `collect_captured`, as a table variant -> sub-expression fields walked (in order).
+    Every `LiftExpr` variant must appear in exactly one arm, and every field of it that holds sub-expressions
+    (Box<LiftExpr>, Vec<LiftExpr>, Option<Box<LiftExpr>>, Vec<LiftArm>) must be walked by that arm: a variant with
+    sub-expressions in a leaf arm, or an arm that skips such a field, is an extractor error."""
+    lift = _norm(open(os.path.join(REPO, "crates/compiler/src/lift.rs")).read())
+    enum_body = block_after(lift, r"pub enum LiftExpr \{", "enum LiftExpr")
+    variants = []          # (name, [(field, kind)])
+    for m in re.finditer(r"(E\w+) \{([^{}]*)\}", enum_body):
+        fields = []
+        for f in c08_split_top(m.group(2), ","):
+            fm = re.match(r"(\w+): (.+)$", f)
+            if not fm:
+                raise Exception(f"lift.rs: cannot read field `{f}` of LiftExpr::{m.group(1)}")
+            t = fm.group(2).strip()
+            kind = {"Box<LiftExpr>": "one", "Vec<LiftExpr>": "many", "Option<Box<LiftExpr>>": "opt", "Vec<LiftArm>": "arms"}.get(t)
+            if kind is None and "LiftExpr" in t or kind is None and "LiftArm" in t:
+                raise Exception(f"lift.rs: LiftExpr::{m.group(1)}.{fm.group(1)} has a sub-expression type the extractor does not know: {t}")
+            if kind:
+                fields.append((fm.group(1), kind))
+        variants.append((m.group(1), fields))
+    if len(variants) < 10:
+        raise Exception("lift.rs: enum LiftExpr not found / too few variants")
+    arm_struct = block_after(lift, r"pub struct LiftArm \{", "struct LiftArm")
+    arm_fields = [f.split(":")[0].replace("pub", "").strip() for f in c08_split_top(arm_struct, ",") if "LiftExpr" in f]
+    body = block_after(lift, r"fn collect_captured\( expr: &LiftExpr, bound: &mut Vec<String>, captured: &mut IndexMap<String, Ty>, scope: &Scope, \) \{", "collect_captured")
+    mbody = block_after(body, r"match expr \{", "collect_captured: match expr")
+    # arms: `pattern => { block }` (every arm of this function is a block)
+    arms, i = [], 0
+    while i < len(mbody):
+        j = mbody.find("=>", i)
+        if j < 0:
+            break
+        pat = mbody[i:j].strip()
+        k = mbody.index("{", j)
+        depth, e = 0, k
+        while True:
+            if mbody[e] == "{":
+                depth += 1
+            elif mbody[e] == "}":
+                depth -= 1
+                if depth == 0:
+                    break
+            e += 1
+        arms.append((pat, mbody[k + 1:e]))
+        i = e + 1
+        while i < len(mbody) and mbody[i] in " ,":
+            i += 1
+    seen, table = {}, {}
+    for pat, blk in arms:
+        for alt in c08_split_top(pat, "|"):
+            am = re.match(r"LiftExpr::(E\w+) \{(.*)\}$", alt)
+            if not am:
+                raise Exception(f"lift.rs: collect_captured has an arm the extractor cannot read: `{alt}`")
+            v = am.group(1)
+            if v in seen:
+                raise Exception(f"lift.rs: collect_captured matches LiftExpr::{v} twice")
+            seen[v] = True
+            alias = {}
+            for f in c08_split_top(am.group(2), ","):
+                if f == "..":
+                    continue
+                fm = re.match(r"(\w+)(?:: (\w+))?$", f)
+                if not fm:
+                    raise Exception(f"lift.rs: collect_captured: cannot read binding `{f}` of LiftExpr::{v}")
+                alias[fm.group(1)] = fm.group(2) or fm.group(1)
+            decl = dict(next(fs for n, fs in variants if n == v)) if any(n == v for n, _ in variants) else None
+            if decl is None:
+                raise Exception(f"lift.rs: collect_captured matches unknown variant {v}")
+            walked = []
+            for field, kind in decl.items():
+                a = alias.get(field)
+                pos = None
+                if a is not None:
+                    if kind == "one":
+                        mm = re.search(r"collect_captured\( ?&?%s, bound, captured, scope,? ?\)" % re.escape(a), blk)
+                        pos = mm.start() if mm else None
+                    elif kind == "many":
+                        mm = re.search(r"for (\w+) in %s \{ collect_captured\( ?\1, bound, captured, scope,? ?\); \}" % re.escape(a), blk)
+                        pos = mm.start() if mm else None
+                    elif kind == "opt":
+                        mm = re.search(r"if let Some\((\w+)\) = %s \{ collect_captured\( ?\1, bound, captured, scope,? ?\); \}" % re.escape(a), blk)
+                        pos = mm.start() if mm else None
+                    elif kind == "arms":
+                        mm = re.search(r"for (\w+) in %s \{ (.*?) \}" % re.escape(a), blk)
+                        if mm:
+                            inner = [x for x in re.findall(r"collect_captured\( ?&%s\.(\w+), bound, captured, scope,? ?\)" % mm.group(1), mm.group(2))]
+                            if inner != arm_fields:
+                                raise Exception(f"lift.rs: collect_captured walks {inner} of every match arm, LiftArm has {arm_fields}")
+                            pos = mm.start()
+                if pos is None:
+                    where = "a leaf arm" if not blk.strip() else "its arm"
+                    raise Exception(f"lift.rs: collect_captured does not walk `{field}` of LiftExpr::{v} ({where}): "
+                                    f"variables used only there would not be captured")
+                walked.append((pos, field))
+            table[v] = [f for _, f in sorted(walked)]
+            if v == "ELet":
+                # the bound name is pushed between value and body, popped afterwards
+                if not re.search(r"collect_captured\( ?value, bound, captured, scope,? ?\); bound\.push\(name\.clone\(\)\); collect_captured\( ?body, bound, captured, scope,? ?\); bound\.pop\(\);", blk):
+                    raise Exception("lift.rs: collect_captured: ELet no longer binds its name exactly around the body")
+    missing = [n for n, _ in variants if n not in seen]
+    if missing:
+        raise Exception(f"lift.rs: collect_captured has no arm for {missing}")
+    rows = ",\n".join('  ("%s", [%s])' % (n, ", ".join('"%s"' % f for f in table[n])) for n, _ in variants)
+    write_if_changed("LiftCaptureWalk.lean", f"""/- GENERATED by tools/extract.py (c08_gen_capture_walk) from lift.rs — do not edit -/
+namespace Goml.Lift.Consts
+/-- `collect_captured`: for every `LiftExpr` variant (declaration order) the sub-expression fields it
+    walks, in the order it walks them; the extractor has checked that these are ALL the fields of the
+    variant that hold sub-expressions -/
+def captureWalk : List (String × List String) := [
+{rows}]
+end Goml.Lift.Consts
+""")
+
+EXTRACTORS += [c08_gen_capture_walk]
+
 # ---------------------------------------------------------------- C18: derive dispatch, json_escape_string table
 def c18_rust_lit(lit):
     """value of a plain Rust string literal body (between the quotes): \\ \" \n \t escapes only"""
